@@ -1,6 +1,9 @@
 (* Properties/C11.v — BCJ, Delta and BCJ2 filters are exact inverses and match the reference.
    Only theorem statements, each closed by [exact] of a lemma proved elsewhere. *)
 From LzVerif Require Import Base.Bytes Filter.Delta Filter.DeltaProofs.
+From LzVerif Require Import Filter.Bcj Filter.BcjStream Filter.BcjDefects Filter.BcjCodeProofs
+  Filter.BcjStreamProofs Filter.BcjIa64Proofs Filter.BcjX86InvProofs Filter.BcjRiscvInvProofs Filter.BcjAllProofs
+  Filter.BcjDefectsProofs.
 
 (* Delta: for EVERY distance value (the whole usize range, in or out of 1..256) and every byte
    string, the encoder does not panic, keeps the length, and the decoder returns the input. *)
@@ -34,3 +37,178 @@ Example C11_delta_example :
   delta_encode_bytes 2 [10; 20; 30; 25; 5] = Some [10; 20; 20; 5; 231] /\
   delta_decode_bytes 2 [10; 20; 20; 5; 231] = Some [10; 20; 30; 25; 5].
 Proof. vm_compute. split; reflexivity. Qed.
+
+(* ============================================================================================ *)
+(* BCJ.  Models: Filter/Bcj.v (the eight `code` functions, after repo-patches/11), Filter/BcjStream.v
+   (BCJReader::read after repo-patches/13, BCJWriter::write).  [bcj_code a enc st buf] returns the
+   new filter state, the converted prefix and the untouched rest of the buffer. *)
+
+(* ---- exact inverses, word-aligned architectures ----
+   For EVERY start offset that is a multiple of the architecture's alignment (any Z: the
+   constructor wraps at 2^64 like the repaired code) and every byte buffer: the encoder does not
+   fail; the decoder applied to the encoder's output buffer (converted prefix ++ untouched rest)
+   processes the same length, ends in the same filter state and gives the buffer back. *)
+Theorem C11_bcj_inverse_arm : forall start buf, start mod 4 = 0 -> bytes_ok buf = true ->
+  exists st' out rest,
+    bcj_code ARM true (bcj_init ARM start) buf = Ok (st', out, rest) /\
+    bcj_code ARM false (bcj_init ARM start) (out ++ rest) = Ok (st', firstn (length out) buf, rest) /\
+    firstn (length out) buf ++ rest = buf /\ bytes_ok out = true.
+Proof. exact bcj_inverse_arm. Qed.
+Print Assumptions C11_bcj_inverse_arm.
+
+Theorem C11_bcj_inverse_armthumb : forall start buf, start mod 2 = 0 -> bytes_ok buf = true ->
+  exists st' out rest,
+    bcj_code ARMT true (bcj_init ARMT start) buf = Ok (st', out, rest) /\
+    bcj_code ARMT false (bcj_init ARMT start) (out ++ rest) = Ok (st', firstn (length out) buf, rest) /\
+    firstn (length out) buf ++ rest = buf /\ bytes_ok out = true.
+Proof. exact bcj_inverse_armthumb. Qed.
+Print Assumptions C11_bcj_inverse_armthumb.
+
+Theorem C11_bcj_inverse_arm64 : forall start buf, start mod 4 = 0 -> bytes_ok buf = true ->
+  exists st' out rest,
+    bcj_code ARM64 true (bcj_init ARM64 start) buf = Ok (st', out, rest) /\
+    bcj_code ARM64 false (bcj_init ARM64 start) (out ++ rest) = Ok (st', firstn (length out) buf, rest) /\
+    firstn (length out) buf ++ rest = buf /\ bytes_ok out = true.
+Proof. exact bcj_inverse_arm64. Qed.
+Print Assumptions C11_bcj_inverse_arm64.
+
+Theorem C11_bcj_inverse_ppc : forall start buf, start mod 4 = 0 -> bytes_ok buf = true ->
+  exists st' out rest,
+    bcj_code PPC true (bcj_init PPC start) buf = Ok (st', out, rest) /\
+    bcj_code PPC false (bcj_init PPC start) (out ++ rest) = Ok (st', firstn (length out) buf, rest) /\
+    firstn (length out) buf ++ rest = buf /\ bytes_ok out = true.
+Proof. exact bcj_inverse_ppc. Qed.
+Print Assumptions C11_bcj_inverse_ppc.
+
+Theorem C11_bcj_inverse_sparc : forall start buf, start mod 4 = 0 -> bytes_ok buf = true ->
+  exists st' out rest,
+    bcj_code SPARC true (bcj_init SPARC start) buf = Ok (st', out, rest) /\
+    bcj_code SPARC false (bcj_init SPARC start) (out ++ rest) = Ok (st', firstn (length out) buf, rest) /\
+    firstn (length out) buf ++ rest = buf /\ bytes_ok out = true.
+Proof. exact bcj_inverse_sparc. Qed.
+Print Assumptions C11_bcj_inverse_sparc.
+
+(* IA-64: bundles of 16 bytes, three 41-bit slots; start offset a multiple of 16 *)
+Theorem C11_bcj_inverse_ia64 : forall start buf, start mod 16 = 0 -> bytes_ok buf = true ->
+  exists st' out rest,
+    bcj_code IA64 true (bcj_init IA64 start) buf = Ok (st', out, rest) /\
+    bcj_code IA64 false (bcj_init IA64 start) (out ++ rest) = Ok (st', firstn (length out) buf, rest) /\
+    firstn (length out) buf ++ rest = buf /\ bytes_ok out = true.
+Proof. exact bcj_inverse_ia64. Qed.
+Print Assumptions C11_bcj_inverse_ia64.
+
+(* x86: every start offset (alignment 1); the prev_mask automaton of the decoder, fed with the
+   converted bytes, takes the encoder's decisions *)
+Theorem C11_bcj_inverse_x86 : forall start buf, bytes_ok buf = true ->
+  exists st' out rest,
+    bcj_code X86 true (bcj_init X86 start) buf = Ok (st', out, rest) /\
+    bcj_code X86 false (bcj_init X86 start) (out ++ rest) = Ok (st', firstn (length out) buf, rest) /\
+    firstn (length out) buf ++ rest = buf /\ bytes_ok out = true.
+Proof. exact bcj_inverse_x86. Qed.
+Print Assumptions C11_bcj_inverse_x86.
+
+(* RISC-V: start offset even; JAL, AUIPC pairs and the escape of AUIPC x0/x2 look-alikes *)
+Theorem C11_bcj_inverse_riscv : forall start buf, start mod 2 = 0 -> bytes_ok buf = true ->
+  exists st' out rest,
+    bcj_code RISCV true (bcj_init RISCV start) buf = Ok (st', out, rest) /\
+    bcj_code RISCV false (bcj_init RISCV start) (out ++ rest) = Ok (st', firstn (length out) buf, rest) /\
+    firstn (length out) buf ++ rest = buf /\ bytes_ok out = true.
+Proof. exact bcj_inverse_riscv. Qed.
+Print Assumptions C11_bcj_inverse_riscv.
+
+(* all eight at once ([bcj_align]: x86 1, ARM 4, ARM-Thumb 2, ARM64 4, PowerPC 4, SPARC 4, IA-64 16, RISC-V 2) *)
+Theorem C11_bcj_inverse_all : forall a start buf, start mod bcj_align a = 0 -> bytes_ok buf = true ->
+  exists st' out rest,
+    bcj_code a true (bcj_init a start) buf = Ok (st', out, rest) /\
+    bcj_code a false (bcj_init a start) (out ++ rest) = Ok (st', firstn (length out) buf, rest) /\
+    firstn (length out) buf ++ rest = buf /\ bytes_ok out = true.
+Proof. exact bcj_inverse_all. Qed.
+Print Assumptions C11_bcj_inverse_all.
+
+(* ---- the round trip through the I/O adapters, every architecture: one BCJWriter::write of the
+   data, then BCJReader over ANY chunking of the filtered stream and ANY history of destination
+   sizes (zeros included) that asks for enough bytes. ---- *)
+Theorem C11_bcj_roundtrip : forall a start data, start mod bcj_align a = 0 -> bytes_ok data = true ->
+  exists enc,
+    bcj_enc_parts a start [data] = Ok enc /\ length enc = length data /\
+    forall parts sizes, concat parts = enc -> Forall (fun n => 0 <= n) sizes ->
+      Z.of_nat (length data) <= fold_right Z.add 0 sizes ->
+      exists rs' inner',
+        bcj_read_calls (bcj_read_fuel (data_script parts)) a (bcj_reader_new a start) (data_script parts) sizes =
+          Ok (data, [], rs', inner').
+Proof. exact bcj_roundtrip_all. Qed.
+Print Assumptions C11_bcj_roundtrip.
+
+(* ---- BCJReader, all eight architectures (shared with C07): the bytes delivered do not depend
+   on the inner reader's chunking nor on the destination sizes; they are `code` applied to the
+   whole stream with the unconvertible tail passed through; no call fails; a zero-length read
+   changes nothing. ---- *)
+Theorem C11_bcj_reader_any_sizes : forall a start parts sizes,
+  bytes_ok (concat parts) = true -> Forall (fun n => 0 <= n) sizes ->
+  exists F rs' inner',
+    bcj_stream a false start (concat parts) = Ok F /\
+    bcj_read_calls (bcj_read_fuel (data_script parts)) a (bcj_reader_new a start) (data_script parts) sizes =
+      Ok (firstn (Z.to_nat (fold_right Z.add 0 sizes)) F, [], rs', inner').
+Proof. exact bcj_reader_any_sizes. Qed.
+Print Assumptions C11_bcj_reader_any_sizes.
+
+Theorem C11_bcj_reader_zero_read : forall fuel a st inner, bcj_read fuel a st inner 0 = Ok ([], None, st, inner).
+Proof. exact bcj_reader_zero_read. Qed.
+Print Assumptions C11_bcj_reader_zero_read.
+
+(* BCJReader over an inner reader that fails now and then (repaired by repo-patches/13), read by
+   a loop with positive destination sizes that repeats a call failing with Interrupted: a prefix
+   of the stream-level result is obtained; the loop ends normally only with the whole result; it
+   ends with an error only with a non-transient error of the inner reader; if the inner reader
+   only ever fails transiently the whole result is obtained. *)
+Theorem C11_bcj_reader_retry : forall a start inner sizes,
+  script_ok inner -> bytes_ok (script_data inner) = true -> Forall (fun s => 0 < s) sizes ->
+  exists F out e,
+    bcj_stream a false start (script_data inner) = Ok F /\
+    bcj_dec_script a start inner sizes = Ok (out, e) /\
+    (exists Y, F = out ++ Y) /\
+    (e = None -> out = F) /\
+    (forall c, e = Some c -> c <> E_INTERRUPTED /\ In c (script_errs inner)) /\
+    (Forall (fun c => c = E_INTERRUPTED) (script_errs inner) -> e = None /\ out = F).
+Proof. exact bcj_reader_retry. Qed.
+Print Assumptions C11_bcj_reader_retry.
+
+(* ---- BCJWriter under a partition of the data into write calls.  FALSE in general (known
+   finding bcj-writer-midstream-tail): [C11_bcj_writer_partition_refuted] exhibits a two-call
+   history whose output is neither the filtered stream nor decodable to the data, while the
+   one-call history is fine.  TRUE outside the known class: if no write call leaves an unconverted
+   tail while more data follows, the sink receives exactly the filtered stream. ---- *)
+Theorem C11_bcj_writer_partition_refuted :
+  exists a start parts,
+    bytes_ok (concat parts) = true /\
+    bcj_enc_parts a start parts <> bcj_stream a true start (concat parts) /\
+    (exists out, bcj_enc_parts a start parts = Ok out /\ bcj_stream a false start out <> Ok (concat parts)) /\
+    (exists out1, bcj_enc_parts a start [concat parts] = Ok out1 /\ bcj_stream a false start out1 = Ok (concat parts)) /\
+    ~ no_midstream_tail a (bcj_init a start) parts.
+Proof. exact bcj_writer_partition_refuted. Qed.
+Print Assumptions C11_bcj_writer_partition_refuted.
+
+Theorem C11_bcj_writer_partition_known : forall a start parts,
+  bytes_ok (concat parts) = true -> no_midstream_tail a (bcj_init a start) parts ->
+  exists F, bcj_stream a true start (concat parts) = Ok F /\ bcj_enc_parts a start parts = Ok F.
+Proof. exact bcj_writer_partition_known. Qed.
+Print Assumptions C11_bcj_writer_partition_known.
+
+(* ---- repaired by repo-patches/11: the `+`/`-` of the original code panicked in builds with
+   overflow checks (witness: start offset 0x7FFFFFEC, word C1 09 0F EB; start offset 2^64 - 4). ---- *)
+Theorem C11_bcj_checked_add_refuted :
+  exists start b0 b1 b2,
+    start mod 4 = 0 /\ 0 <= start < 4294967296 /\
+    arm_word_old true (start + 8) 0 b0 b1 b2 235 = Panic 1 /\
+    (let '(c0, c1, c2, c3) := arm_word true (pc32 (start + 8) 0) b0 b1 b2 235 in
+     arm_word false (pc32 (start + 8) 0) c0 c1 c2 c3 = (b0, b1, b2, 235)).
+Proof. exact bcj_checked_add_refuted. Qed.
+Print Assumptions C11_bcj_checked_add_refuted.
+
+(* Non-vacuity: an aligned non-zero start offset near 2^31 and a buffer with a BL instruction, a
+   chunked reader history with a zero-length read, a write history outside the known class. *)
+Example C11_bcj_example :
+  bcj_enc_parts ARM 2147483632 [[255; 255; 255; 235; 7]] = Ok [253; 255; 255; 235; 7] /\
+  bcj_dec_script ARM 2147483632 [IData [253; 255]; IErr 8; IData [255; 235; 7]] [1; 3] = Ok ([255; 255; 255; 235; 7], None) /\
+  no_midstream_tail ARM (bcj_init ARM 0) [[0; 0; 0; 235]; []; [1; 2; 3; 235; 9]].
+Proof. split; [vm_compute; reflexivity|]. split; [vm_compute; reflexivity|]. vm_compute. auto. Qed.
